@@ -319,8 +319,7 @@ def rule_prefix_only(ctx, R="C17/prefix-only"):
         ctx.check(ok, R, "copy_from_process-forwards", cb.where(bi), "copy_from_process(pid, src, len) reads (src, NonZero(len)) with a fresh reader for pid", "copy_from_process calls read_to_vec(%s, %s, %s)" % (show(rdr)[:60], show(a[1])[:40], show(a[2])[:80]))
 
 
-def rule_style_cache(ctx):
-    R = "C17/style-cache"
+def rule_style_cache(ctx, R="C17/style-cache"):
     b = ctx.body(R, MR + "::read")
     if b is None:
         return
